@@ -455,8 +455,20 @@ func runC05(c *Ctx) {
 		// worker.run exits only on !ok
 		wr := c.Func("actor", "worker.run")
 		wf := c.NewFlow(wr)
+		takeFn := c.FuncObj("actor", "readyQueue.take")
+		takeOK := map[types.Object]bool{} // the boolean result of take (second value of the define)
+		ast.Inspect(wr.Decl.Body, func(n ast.Node) bool {
+			if as, ok := n.(*ast.AssignStmt); ok && len(as.Lhs) == 2 && len(as.Rhs) == 1 {
+				if call, ok := as.Rhs[0].(*ast.CallExpr); ok && callee(wf.Info, call) == takeFn {
+					if id, ok := as.Lhs[1].(*ast.Ident); ok {
+						takeOK[wf.Info.ObjectOf(id)] = true
+					}
+				}
+			}
+			return true
+		})
 		notOK := wf.EdgesWhere(func(cond ast.Expr) (bool, bool) {
-			if id, ok := cond.(*ast.Ident); ok && id.Name == "ok" {
+			if id, ok := cond.(*ast.Ident); ok && takeOK[wf.Info.ObjectOf(id)] {
 				return true, false
 			}
 			return false, false
